@@ -435,14 +435,58 @@ def mask_use(ctx, rule):
     is `values[mask]` under exactly that flag and `values` otherwise."""
     P = ctx.P
     rv = P.func(RF.READER + '.read_variant_headers')
-    um = [a for a in ast.walk(rv.node) if isinstance(a, ast.Assign) and U(a.targets[0]) == 'use_mask']
+    FLAGS = ['self.is_3d', 'self.structured', 'self.include_padding']
     stores = [a for a in ast.walk(rv.node) if isinstance(a, ast.Assign) and isinstance(a.targets[0], ast.Subscript) and
               U(a.targets[0].value) == 'self.variant_headers']
-    sel_ok = bool(stores) and all(isinstance(a.value, ast.IfExp) and U(a.value.test) == 'use_mask' and
-                                  'self.mask' in U(a.value.body) and 'mask' not in U(a.value.orelse) for a in stores)
-    if um and sel_ok and bool_equiv(um[0].value, ['self.is_3d', 'self.structured', 'self.include_padding'],
-                                    lambda a, b, c: a and not b and not c):
-        ctx.ok(rule, rv, um[0], 'arrays are masked for unstructured 3D files unless padding is requested')
+
+    def expand(e, depth=0):
+        """boolean expression with single-definition local flags replaced by their definitions"""
+        import copy
+        if isinstance(e, ast.Name) and depth < 4:
+            defs = [a for a in ast.walk(rv.node) if isinstance(a, ast.Assign) and len(a.targets) == 1 and U(a.targets[0]) == e.id]
+            if len(defs) == 1:
+                return expand(defs[0].value, depth + 1)
+            return e
+        if isinstance(e, ast.BoolOp):
+            return ast.BoolOp(op=e.op, values=[expand(v, depth) for v in e.values])
+        if isinstance(e, ast.UnaryOp) and isinstance(e.op, ast.Not):
+            return ast.UnaryOp(op=ast.Not(), operand=expand(e.operand, depth))
+        return e
+
+    def mentions_flag(e):
+        return any(U(x) in FLAGS for x in ast.walk(expand(e)))
+
+    # condition under which each store keeps the masked / the full array: conditional expression on the value and the
+    # enclosing `if` tests that involve the three flags
+    masked, full = [], []
+    um = []
+    for a in stores:
+        conds = []
+        q, child = parent(a), a
+        while q is not None and q is not rv.node:
+            if isinstance(q, ast.If) and mentions_flag(q.test):
+                t = expand(q.test)
+                conds.append(t if child in q.body else ast.UnaryOp(op=ast.Not(), operand=t))
+                um.append(q)
+            child, q = q, parent(q)
+        arms = [(a.value, [])]
+        if isinstance(a.value, ast.IfExp):
+            t = expand(a.value.test)
+            arms = [(a.value.body, [t]), (a.value.orelse, [ast.UnaryOp(op=ast.Not(), operand=t)])]
+        for (v, extra) in arms:
+            c = conds + extra
+            cond = ast.BoolOp(op=ast.And(), values=c) if c else None
+            uses_mask = any(isinstance(x, ast.Attribute) and x.attr == 'mask' for x in ast.walk(v))
+            (masked if uses_mask else full).append(cond)
+    def disj(cs):
+        if any(c is None for c in cs):
+            return ast.BoolOp(op=ast.Or(), values=[ast.Name(id='__true__', ctx=ast.Load())])
+        return ast.BoolOp(op=ast.Or(), values=list(cs))
+    want = lambda a_, b_, c_: a_ and not b_ and not c_
+    sel_ok = bool(stores) and bool(masked) and bool(full) and \
+        bool_equiv(disj(masked), FLAGS, want) and bool_equiv(disj(full), FLAGS, lambda a_, b_, c_: not want(a_, b_, c_))
+    if sel_ok:
+        ctx.ok(rule, rv, stores[0], 'arrays are masked for unstructured 3D files unless padding is requested')
     else:
         ctx.fail(rule, rv, (stores or um or [rv.name])[0], 'read_variant_headers does not mask exactly when `is_3d and not '
                  '(structured or include_padding)`: a caller that asks for the padded grid arrays (the re-blocker, '
